@@ -351,8 +351,37 @@ SCOPED.append((REFILL + "m := it ? big; a := m $]; i = 0; b := m $]; (a, b)", ([
 SCOPED.append((REFILL + "m := it ? int; a := m $]; i = 0; b := m $]; (a, b)", ([1, 2, 3], [1, 2, 3])))
 
 
-def fam_iter(tier, seed, extra=()):
+# An error raised by f / p / the fold function at one particular element ends the whole operator with that error (round k,
+# C11-k2: partition swallowed the predicate's error, counted the element as "without" and went on). Inside a function body:
+# Code::exec_unscoped drops the error of a non-last top-level statement (observation D3).
+ERRING = [
+    ("partition", "{SRC} \\ (x: int) -> bool {{ return 12 / x > 2 }}"),
+    ("filter", "{SRC} ? (x: int) -> bool {{ return 12 / x > 2 }} $]"),
+    ("map", "{SRC} @ (x: int) -> int {{ return 12 / x }} $]"),
+    ("map_partition", "{SRC} @ (x: int) -> int {{ return 12 / x }} \\ (x: int) -> bool {{ return x > 2 }}"),
+    ("reduce", "{SRC} $ 0 (acc: int, x: int) -> int {{ return acc + 12 / x }}"),
+    ("map_sum", "{SRC} @ (x: int) -> int {{ return 12 / x }} $+"),
+    ("map_all", "{SRC} @ (x: int) -> bool {{ return 12 / x > 0 }} $&&"),
+    ("partition_modulo", "{SRC} \\ (x: int) -> bool {{ return 12 % x == 0 }}"),
+]
+
+
+def _erring_cases():
+    from probes import Err, E_ZDIV, E_ZMOD
     out = []
+    for name, tpl in ERRING:
+        err = E_ZMOD if "modulo" in name else E_ZDIV
+        for j, xs in enumerate(([6, 1, 0, 12, 2], [0], [3, 4, 0], [0, 5, 6])):
+            lit = "[" + ", ".join(map(str, xs)) + "]"
+            out.append(Case(f"it/erring/{name}/{j}/lit", "main := () -> any { r := " + tpl.format(SRC=lit + "~") + "; return r }; main()", Err(err),
+                            what="the function / predicate fails at one element: the operator fails with that error"))
+            out.append(Case(f"it/erring/{name}/{j}/hidden", "main := (a: [int]) -> any { r := " + tpl.format(SRC="a~") + "; return r }; main(" + lit + ")", Err(err),
+                            what="the function / predicate fails at one element: the operator fails with that error (array passed as argument)"))
+    return out
+
+
+def fam_iter(tier, seed, extra=()):
+    out = _erring_cases()
     for k, (prog, exp) in enumerate(SCOPED):
         out.append(Case(f"it/scoped{k}", prog, exp, what="iterator that calls itself by name / declares names; caller's names survive"))
     for k, (xs, stages, term) in enumerate(FIXED):
